@@ -1,90 +1,77 @@
 import BctVerif.Lemmas.ClusterReduce
 /-!
-# Ranges, zero cases and the signed variants
+# Ranges, zero cases and the signed variants — generic over a linearly ordered field, then for the ℚ model
 -/
 namespace Bct.Cluster
 open Finset Bct
 
 variable {n : ℕ}
 
-theorem perNode_range {c d : ℚ} (h0 : 0 ≤ c) (hcd : c ≤ d) : ∃ x, perNode c d = some x ∧ 0 ≤ x ∧ x ≤ 1 := by
+section Generic
+variable {K : Type} [Field K] [LinearOrder K] [IsStrictOrderedRing K]
+
+theorem perNode_range {c d : K} (h0 : 0 ≤ c) (hcd : c ≤ d) : ∃ x, perNodeK c d = some x ∧ 0 ≤ x ∧ x ≤ 1 := by
   by_cases hc : c = 0
-  · exact ⟨0, by simp [perNode, hc], le_rfl, by norm_num⟩
+  · exact ⟨0, by simp [perNodeK, hc], le_rfl, by norm_num⟩
   · have hc' : 0 < c := lt_of_le_of_ne h0 (Ne.symm hc)
     have hd : 0 < d := lt_of_lt_of_le hc' hcd
     exact ⟨c / d, perNode_of_ne hc (ne_of_gt hd), div_nonneg h0 hd.le, (div_le_one hd).mpr hcd⟩
 
-theorem perNode_range_abs {c d : ℚ} (hcd : |c| ≤ d) : ∃ x, perNode c d = some x ∧ -1 ≤ x ∧ x ≤ 1 := by
+theorem perNode_range_abs {c d : K} (hcd : |c| ≤ d) : ∃ x, perNodeK c d = some x ∧ -1 ≤ x ∧ x ≤ 1 := by
   by_cases hc : c = 0
-  · exact ⟨0, by simp [perNode, hc], by norm_num, by norm_num⟩
+  · exact ⟨0, by simp [perNodeK, hc], by norm_num, by norm_num⟩
   · have hd : 0 < d := lt_of_lt_of_le (abs_pos.mpr hc) hcd
     refine ⟨c / d, perNode_of_ne hc (ne_of_gt hd), ?_, ?_⟩
     · rw [le_div_iff₀ hd]; linarith [neg_abs_le c]
     · rw [div_le_one hd]; exact le_trans (le_abs_self c) hcd
 
-theorem gdiv_range {c d t : ℚ} (h0 : 0 ≤ c) (hcd : c ≤ d) (h : gdiv c d = some t) : 0 ≤ t ∧ t ≤ 1 := by
-  unfold gdiv at h
+theorem gdiv_range {c d t : K} (h0 : 0 ≤ c) (hcd : c ≤ d) (h : gdivK c d = some t) : 0 ≤ t ∧ t ≤ 1 := by
+  unfold gdivK at h
   split_ifs at h with hd
   have hd' : 0 < d := lt_of_le_of_ne (le_trans h0 hcd) (Ne.symm hd)
   simp only [Option.some.injEq] at h
   subst h
   exact ⟨div_nonneg h0 hd'.le, (div_le_one hd').mpr hcd⟩
 
-theorem triS_nonneg {R : AMat ℚ n} (h : ∀ i j, 0 ≤ R.get i j) (i : Fin n) : 0 ≤ triS R i :=
+theorem triS_nonneg {R : AMat K n} (h : ∀ i j, 0 ≤ R.get i j) (i : Fin n) : 0 ≤ triS R i :=
   Finset.sum_nonneg fun j _ => Finset.sum_nonneg fun k _ =>
     mul_nonneg (mul_nonneg (add_nonneg (h _ _) (h _ _)) (add_nonneg (h _ _) (h _ _))) (add_nonneg (h _ _) (h _ _))
 
-/-- the weighted Fagiolo bound on the model's sums -/
-theorem triS_le_pairsS {W R : AMat ℚ n} (hD : EmptyDiag W) (h01 : In01 W) (hR : IsCbrt R W) (i : Fin n) :
-    triS R i / 2 ≤ pairsS (adj W) i := by
-  have h := fagiolo_bound_weighted (fun x y => (adj W).get x y) (fun x y => R.get x y) (adj_bin W)
+/-- the weighted Fagiolo bound on the sums of the routines -/
+theorem triS_le_pairsS {W R : AMat K n} (hD : EmptyDiag W) (h01 : In01 W) (hR : IsCbrt R W) (i : Fin n) :
+    triS R i / 2 ≤ pairsS (adjK W) i := by
+  have h := fagiolo_bound_weighted (fun x y => (adjK W).get x y) (fun x y => R.get x y) (adj_bin W)
     (adj_emptyDiag hD) (fun x y => isCbrt_nonneg hR x y (h01 x y).1)
     (fun x y => by simpa using isCbrt_le_ind hR h01 x y) i
-  have : triS R i ≤ 2 * pairsS (adj W) i := h
+  have : triS R i ≤ 2 * pairsS (adjK W) i := h
   linarith
 
-theorem in01_of_bin {A : AMat ℚ n} (hB : Bin A) : In01 A := fun i j => ⟨bin_nonneg hB i j, bin_le_one hB i j⟩
+theorem in01_of_bin {A : AMat K n} (hB : Bin A) : In01 A := fun i j => ⟨bin_nonneg hB i j, bin_le_one hB i j⟩
 
-theorem range_wd {W R : AMat ℚ n} (hD : EmptyDiag W) (h01 : In01 W) (hR : IsCbrt R W) (i : Fin n) :
-    ∃ c, (ccWd W R)[i] = some c ∧ 0 ≤ c ∧ c ≤ 1 := by
-  rw [ccWd, ccFagiolo_get]
-  exact perNode_range (div_nonneg (triS_nonneg (fun x y => isCbrt_nonneg hR x y (h01 x y).1) i) (by norm_num))
+/-- `clustering_coef_wd` in [0,1] for weights in [0,1] -/
+theorem range_fagK {W R : AMat K n} (hD : EmptyDiag W) (h01 : In01 W) (hR : IsCbrt R W) (i : Fin n) :
+    ∃ c, ccFagK (adjK W) R i = some c ∧ 0 ≤ c ∧ c ≤ 1 :=
+  perNode_range (div_nonneg (triS_nonneg (fun x y => isCbrt_nonneg hR x y (h01 x y).1) i) (by norm_num))
     (triS_le_pairsS hD h01 hR i)
 
-theorem range_bd {A : AMat ℚ n} (hB : Bin A) (hD : EmptyDiag A) (i : Fin n) :
-    ∃ c, (ccBd A)[i] = some c ∧ 0 ≤ c ∧ c ≤ 1 := by
-  rw [← wd_eq_bd_on01 hB]; exact range_wd hD (in01_of_bin hB) (isCbrt_of_bin hB) i
+/-- `clustering_coef_wu` in [0,1] for weights in [0,1] -/
+theorem range_wuK {W R : AMat K n} (hS : Symm W) (hD : EmptyDiag W) (h01 : In01 W) (hR : IsCbrt R W) (i : Fin n) :
+    ∃ c, ccWuK W R i = some c ∧ 0 ≤ c ∧ c ≤ 1 := by
+  rw [← ccFagK_symm hS (isCbrt_symm hR hS)]; exact range_fagK hD h01 hR i
 
-theorem range_wu {W R : AMat ℚ n} (hS : Symm W) (hD : EmptyDiag W) (h01 : In01 W) (hR : IsCbrt R W) (i : Fin n) :
-    ∃ c, (ccWu W R)[i] = some c ∧ 0 ≤ c ∧ c ≤ 1 := by
-  rw [← wd_eq_wu_symm hS (isCbrt_symm hR hS)]; exact range_wd hD h01 hR i
-
-theorem range_bu {G : AMat ℚ n} (hB : Bin G) (hS : Symm G) (hD : EmptyDiag G) (u : Fin n) :
-    ∃ c, (ccBu G)[u] = some c ∧ 0 ≤ c ∧ c ≤ 1 := by
-  rw [← bd_eq_bu_symm hB hS hD]; exact range_bd hB hD u
-
-theorem range_trans_wd {W R : AMat ℚ n} (hD : EmptyDiag W) (h01 : In01 W) (hR : IsCbrt R W) {t : ℚ}
-    (h : transWd W R = some t) : 0 ≤ t ∧ t ≤ 1 := by
-  rw [transWd, transFagiolo_eq] at h
-  exact gdiv_range
+theorem range_transFagK {W R : AMat K n} (hD : EmptyDiag W) (h01 : In01 W) (hR : IsCbrt R W) {t : K}
+    (h : transFagK (adjK W) R = some t) : 0 ≤ t ∧ t ≤ 1 :=
+  gdiv_range
     (Finset.sum_nonneg fun i _ => div_nonneg (triS_nonneg (fun x y => isCbrt_nonneg hR x y (h01 x y).1) i) (by norm_num))
     (Finset.sum_le_sum fun i _ => triS_le_pairsS hD h01 hR i) h
 
-theorem range_trans_bd {A : AMat ℚ n} (hB : Bin A) (hD : EmptyDiag A) {t : ℚ} (h : transBd A = some t) :
-    0 ≤ t ∧ t ≤ 1 := by
-  rw [← trans_wd_eq_bd_on01 hB] at h; exact range_trans_wd hD (in01_of_bin hB) (isCbrt_of_bin hB) h
-
-theorem range_trans_wu {W R : AMat ℚ n} (hS : Symm W) (hD : EmptyDiag W) (h01 : In01 W) (hR : IsCbrt R W) {t : ℚ}
-    (h : transWu W R = some t) : 0 ≤ t ∧ t ≤ 1 := by
-  rw [← trans_wd_eq_wu_symm hS (isCbrt_symm hR hS)] at h; exact range_trans_wd hD h01 hR h
-
-theorem range_trans_bu {A : AMat ℚ n} (hB : Bin A) (hS : Symm A) (hD : EmptyDiag A) {t : ℚ} (h : transBu A = some t) :
-    0 ≤ t ∧ t ≤ 1 := by
-  rw [← trans_bd_eq_bu_symm hB hS] at h; exact range_trans_bd hB hD h
+theorem range_transWuK {W R : AMat K n} (hS : Symm W) (hD : EmptyDiag W) (h01 : In01 W) (hR : IsCbrt R W) {t : K}
+    (h : transWuK W R = some t) : 0 ≤ t ∧ t ≤ 1 := by
+  rw [← transFagK_symm hS (isCbrt_symm hR hS)] at h; exact range_transFagK hD h01 hR h
 
 /-! ### zero cases -/
 
-theorem triS_zero_of_notri {R : AMat ℚ n} {i : Fin n}
+theorem triS_zero_of_notri {R : AMat K n} {i : Fin n}
     (h : ∀ j k, ¬ (Nb R i j ∧ Nb R j k ∧ Nb R k i)) : triS R i = 0 := by
   refine Finset.sum_eq_zero (fun j _ => Finset.sum_eq_zero (fun k _ => ?_))
   by_contra hne
@@ -95,11 +82,11 @@ theorem triS_zero_of_notri {R : AMat ℚ n} {i : Fin n}
     intro x y hxy; unfold Nb; by_contra hc; push Not at hc; exact hxy (by rw [hc.1, hc.2]; ring)
   exact h j k ⟨nb _ _ h1, nb _ _ h2, nb _ _ h3⟩
 
-theorem nb_root_iff {R W : AMat ℚ n} (hR : IsCbrt R W) (i j : Fin n) : Nb R i j ↔ Nb W i j := by
+theorem nb_root_iff {R W : AMat K n} (hR : IsCbrt R W) (i j : Fin n) : Nb R i j ↔ Nb W i j := by
   unfold Nb; simp only [ne_eq, isCbrt_zero_iff hR i j, isCbrt_zero_iff hR j i]
 
 /-- fewer than two neighbours (with an empty diagonal) ⇒ no triangle -/
-theorem notri_of_lt2 {W : AMat ℚ n} (hD : EmptyDiag W) {i : Fin n}
+theorem notri_of_lt2 {W : AMat K n} (hD : EmptyDiag W) {i : Fin n}
     (h : ∀ j k, Nb W i j → Nb W i k → j = k) : ∀ j k, ¬ (Nb W i j ∧ Nb W j k ∧ Nb W k i) := by
   rintro j k ⟨h1, h2, h3⟩
   have h3' : Nb W i k := by unfold Nb at h3 ⊢; tauto
@@ -107,56 +94,85 @@ theorem notri_of_lt2 {W : AMat ℚ n} (hD : EmptyDiag W) {i : Fin n}
   subst this
   unfold Nb at h2; rw [hD j] at h2; tauto
 
-theorem tri_zero_of_notri {R : AMat ℚ n} {i : Fin n}
+theorem tri_zero_of_notri {R : AMat K n} {i : Fin n}
     (h : ∀ j k, ¬ (R.get i j ≠ 0 ∧ R.get j k ≠ 0 ∧ R.get k i ≠ 0)) : tri R i = 0 := by
   refine Finset.sum_eq_zero (fun j _ => Finset.sum_eq_zero (fun k _ => ?_))
   by_contra hne
   exact h j k ⟨left_ne_zero_of_mul (left_ne_zero_of_mul hne), right_ne_zero_of_mul (left_ne_zero_of_mul hne),
     right_ne_zero_of_mul hne⟩
 
+theorem fagK_zero_notri {A R W : AMat K n} (hR : IsCbrt R W) (i : Fin n)
+    (h : ∀ j k, ¬ (Nb W i j ∧ Nb W j k ∧ Nb W k i)) : ccFagK A R i = some 0 := by
+  have h' : ∀ j k, ¬ (Nb R i j ∧ Nb R j k ∧ Nb R k i) := fun j k => by
+    rw [nb_root_iff hR, nb_root_iff hR, nb_root_iff hR]; exact h j k
+  rw [ccFagK, triS_zero_of_notri h']; simp [perNodeK]
+
+theorem wuK_zero_notri {W R : AMat K n} (hR : IsCbrt R W) (i : Fin n)
+    (h : ∀ j k, ¬ (W.get i j ≠ 0 ∧ W.get j k ≠ 0 ∧ W.get k i ≠ 0)) : ccWuK W R i = some 0 := by
+  have h' : ∀ j k, ¬ (R.get i j ≠ 0 ∧ R.get j k ≠ 0 ∧ R.get k i ≠ 0) := fun j k => by
+    simp only [ne_eq, isCbrt_zero_iff hR]; exact h j k
+  rw [ccWuK, tri_zero_of_notri h']; simp [perNodeK]
+
+theorem wuK_zero_lt2 {W R : AMat K n} (hS : Symm W) (hD : EmptyDiag W) (hR : IsCbrt R W) (i : Fin n)
+    (h : deg W i < 2) : ccWuK W R i = some 0 := by
+  rw [ccWuK]
+  by_cases ht : tri R i = 0
+  · rw [ht]; simp [perNodeK]
+  · exact absurd (tri_ne_zero_deg hS hD hR ht) (not_le.mpr h)
+
+/-- a nonzero Fagiolo numerator forces a positive denominator (any signed weights, empty diagonal) -/
+theorem pairsS_pos_of_triS {W R : AMat K n} (hD : EmptyDiag W) (hR : IsCbrt R W) {i : Fin n}
+    (h : triS R i ≠ 0) : 0 < pairsS (adjK W) i := by
+  obtain ⟨j, k, hjk, h1, -, h3⟩ := triS_ne_zero (isCbrt_emptyDiag hR hD) h
+  have one_le : ∀ x y, R.get x y + R.get y x ≠ 0 → 1 ≤ (adjK W).get x y + (adjK W).get y x := by
+    intro x y hxy
+    have : W.get x y ≠ 0 ∨ W.get y x ≠ 0 := by
+      by_contra hc; push Not at hc
+      exact hxy (by rw [(isCbrt_zero_iff hR x y).mpr hc.1, (isCbrt_zero_iff hR y x).mpr hc.2]; ring)
+    rcases this with h | h
+    · have e : indK (W.get x y) = 1 := by simp [indK, h]
+      simp only [adjK_get, e]; linarith [ind_nonneg (W.get y x)]
+    · have e : indK (W.get y x) = 1 := by simp [indK, h]
+      simp only [adjK_get, e]; linarith [ind_nonneg (W.get x y)]
+  refine pairsS_pos (adj_bin W) hjk (one_le _ _ h1) ?_
+  rw [add_comm]; exact one_le _ _ h3
+
+theorem fagK_def {W R : AMat K n} (hD : EmptyDiag W) (hR : IsCbrt R W) (i : Fin n) :
+    ccFagK (adjK W) R i = some (triS R i / 2 / pairsS (adjK W) i) :=
+  perNode_eq_div (fun h => ne_of_gt (pairsS_pos_of_triS hD hR (fun h0 => h (by rw [h0]; norm_num))))
+
+theorem wuK_def {W R : AMat K n} (hS : Symm W) (hD : EmptyDiag W) (hR : IsCbrt R W) (i : Fin n) :
+    ccWuK W R i = some (tri R i / (deg W i * (deg W i - 1))) :=
+  perNode_eq_div (fun h => ne_of_gt (deg_pairs_pos (tri_ne_zero_deg hS hD hR h)))
+
 /-! ### signed variants -/
 
-/-- weights in [-1,1] -/
-def InPm1 (W : AMat ℚ n) : Prop := ∀ i j, -1 ≤ W.get i j ∧ W.get i j ≤ 1
-
-@[simp] theorem zeroDiag_get (W : AMat ℚ n) (i j : Fin n) :
-    (zeroDiag W).get i j = if i = j then 0 else W.get i j := by simp [zeroDiag]
-@[simp] theorem posPart_get (W : AMat ℚ n) (i j : Fin n) :
-    (posPart W).get i j = if 0 < W.get i j then W.get i j else 0 := by simp [posPart]
-@[simp] theorem negPart_get (W : AMat ℚ n) (i j : Fin n) :
-    (negPart W).get i j = if W.get i j < 0 then -W.get i j else 0 := by simp [negPart]
-
-theorem zeroDiag_emptyDiag (W : AMat ℚ n) : EmptyDiag (zeroDiag W) := fun i => by simp
-theorem zeroDiag_symm {W : AMat ℚ n} (h : Symm W) : Symm (zeroDiag W) := fun i j => by
+theorem zeroDiag_emptyDiag (W : AMat K n) : EmptyDiag (zeroDiagK W) := fun i => by simp
+theorem zeroDiag_symm {W : AMat K n} (h : Symm W) : Symm (zeroDiagK W) := fun i j => by
   simp only [zeroDiag_get, h i j, eq_comm]
-theorem posPart_emptyDiag {W : AMat ℚ n} (h : EmptyDiag W) : EmptyDiag (posPart W) := fun i => by simp [h i]
-theorem negPart_emptyDiag {W : AMat ℚ n} (h : EmptyDiag W) : EmptyDiag (negPart W) := fun i => by simp [h i]
-theorem posPart_symm {W : AMat ℚ n} (h : Symm W) : Symm (posPart W) := fun i j => by simp [h i j]
-theorem negPart_symm {W : AMat ℚ n} (h : Symm W) : Symm (negPart W) := fun i j => by simp [h i j]
-theorem zeroDiag_pm1 {W : AMat ℚ n} (h : InPm1 W) : InPm1 (zeroDiag W) := fun i j => by
+theorem posPart_emptyDiag {W : AMat K n} (h : EmptyDiag W) : EmptyDiag (posPartK W) := fun i => by simp [h i]
+theorem negPart_emptyDiag {W : AMat K n} (h : EmptyDiag W) : EmptyDiag (negPartK W) := fun i => by simp [h i]
+theorem posPart_symm {W : AMat K n} (h : Symm W) : Symm (posPartK W) := fun i j => by simp [h i j]
+theorem negPart_symm {W : AMat K n} (h : Symm W) : Symm (negPartK W) := fun i j => by simp [h i j]
+theorem zeroDiag_pm1 {W : AMat K n} (h : InPm1 W) : InPm1 (zeroDiagK W) := fun i j => by
   by_cases hij : i = j
   · simp [hij]
   · simpa [hij] using h i j
-theorem posPart_in01 {W : AMat ℚ n} (h : InPm1 W) : In01 (posPart W) := fun i j => by
+theorem posPart_in01 {W : AMat K n} (h : InPm1 W) : In01 (posPartK W) := fun i j => by
   simp only [posPart_get]; split_ifs with hp
   · exact ⟨hp.le, (h i j).2⟩
   · exact ⟨le_rfl, by norm_num⟩
-theorem negPart_in01 {W : AMat ℚ n} (h : InPm1 W) : In01 (negPart W) := fun i j => by
+theorem negPart_in01 {W : AMat K n} (h : InPm1 W) : In01 (negPartK W) := fun i j => by
   simp only [negPart_get]; split_ifs with hp
   · exact ⟨by linarith, by linarith [(h i j).1]⟩
   · exact ⟨le_rfl, by norm_num⟩
 
-theorem zhangCore_get (P : AMat ℚ n) (i : Fin n) :
-    (zhangCore P)[i] = perNode (∑ j, ∑ q, P.get j i * P.get i q * P.get j q)
-      (∑ j, ∑ q, if j = q then 0 else P.get j i * P.get i q) := by
-  simp only [zhangCore, get_ofFn_vec, vsum_eq]
-
-theorem zhang_num_nonneg {P : AMat ℚ n} (h01 : In01 P) (i : Fin n) :
+theorem zhang_num_nonneg {P : AMat K n} (h01 : In01 P) (i : Fin n) :
     0 ≤ ∑ j, ∑ q, P.get j i * P.get i q * P.get j q :=
   Finset.sum_nonneg fun j _ => Finset.sum_nonneg fun q _ =>
     mul_nonneg (mul_nonneg (h01 _ _).1 (h01 _ _).1) (h01 _ _).1
 
-theorem zhang_num_le {P : AMat ℚ n} (h01 : In01 P) (hD : EmptyDiag P) (i : Fin n) :
+theorem zhang_num_le {P : AMat K n} (h01 : In01 P) (hD : EmptyDiag P) (i : Fin n) :
     ∑ j, ∑ q, P.get j i * P.get i q * P.get j q ≤ ∑ j, ∑ q, if j = q then 0 else P.get j i * P.get i q := by
   refine Finset.sum_le_sum (fun j _ => Finset.sum_le_sum (fun q _ => ?_))
   by_cases hjq : j = q
@@ -164,22 +180,27 @@ theorem zhang_num_le {P : AMat ℚ n} (h01 : In01 P) (hD : EmptyDiag P) (i : Fin
   · rw [if_neg hjq]
     exact mul_le_of_le_one_right (mul_nonneg (h01 _ _).1 (h01 _ _).1) (h01 _ _).2
 
-theorem range_zhang {P : AMat ℚ n} (h01 : In01 P) (hD : EmptyDiag P) (i : Fin n) :
-    ∃ c, (zhangCore P)[i] = some c ∧ 0 ≤ c ∧ c ≤ 1 := by
-  rw [zhangCore_get]; exact perNode_range (zhang_num_nonneg h01 i) (zhang_num_le h01 hD i)
+theorem range_zhang {P : AMat K n} (h01 : In01 P) (hD : EmptyDiag P) (i : Fin n) :
+    ∃ c, zhangK P i = some c ∧ 0 ≤ c ∧ c ≤ 1 :=
+  perNode_range (zhang_num_nonneg h01 i) (zhang_num_le h01 hD i)
 
-theorem qabs_eq (x : ℚ) : qabs x = |x| := by
-  unfold qabs; split_ifs with h
-  · exact (abs_of_nonneg h).symm
-  · exact (abs_of_neg (not_le.mp h)).symm
+theorem zhang_def {P : AMat K n} (h01 : In01 P) (hD : EmptyDiag P) (i : Fin n) :
+    zhangK P i = some ((∑ j, ∑ q, P.get j i * P.get i q * P.get j q) /
+      (∑ j, ∑ q, if j = q then 0 else P.get j i * P.get i q)) :=
+  perNode_eq_div fun h => ne_of_gt
+    (lt_of_lt_of_le (lt_of_le_of_ne (zhang_num_nonneg h01 i) (Ne.symm h)) (zhang_num_le h01 hD i))
 
-theorem ccSignCost_get (W : AMat ℚ n) (i : Fin n) :
-    (ccSignCost W)[i] = perNode
-      (∑ j, ∑ q, (zeroDiag W).get j i * (zeroDiag W).get i q * (zeroDiag W).get j q)
-      (∑ j, ∑ q, if j = q then 0 else |(zeroDiag W).get j i * (zeroDiag W).get i q|) := by
-  simp only [ccSignCost, get_ofFn_vec, vsum_eq, qabs_eq]
+/-- no pair of distinct nodes `j ≠ q` both linked to `i` and to each other in `P` ⇒ exactly 0 -/
+theorem zhang_zero {P : AMat K n} (i : Fin n)
+    (h : ∀ j q, ¬ (P.get j i ≠ 0 ∧ P.get i q ≠ 0 ∧ P.get j q ≠ 0)) : zhangK P i = some 0 := by
+  have : (∑ j, ∑ q, P.get j i * P.get i q * P.get j q) = 0 := by
+    refine Finset.sum_eq_zero (fun j _ => Finset.sum_eq_zero (fun q _ => ?_))
+    by_contra hne
+    exact h j q ⟨left_ne_zero_of_mul (left_ne_zero_of_mul hne), right_ne_zero_of_mul (left_ne_zero_of_mul hne),
+      right_ne_zero_of_mul hne⟩
+  rw [zhangK, this]; simp [perNodeK]
 
-theorem cost_abs_le {Z : AMat ℚ n} (h : InPm1 Z) (hD : EmptyDiag Z) (i : Fin n) :
+theorem cost_abs_le {Z : AMat K n} (h : InPm1 Z) (hD : EmptyDiag Z) (i : Fin n) :
     |∑ j, ∑ q, Z.get j i * Z.get i q * Z.get j q| ≤ ∑ j, ∑ q, if j = q then 0 else |Z.get j i * Z.get i q| := by
   refine le_trans (Finset.abs_sum_le_sum_abs _ _) (Finset.sum_le_sum (fun j _ => ?_))
   refine le_trans (Finset.abs_sum_le_sum_abs _ _) (Finset.sum_le_sum (fun q _ => ?_))
@@ -188,8 +209,82 @@ theorem cost_abs_le {Z : AMat ℚ n} (h : InPm1 Z) (hD : EmptyDiag Z) (i : Fin n
   · rw [if_neg hjq, abs_mul (Z.get j i * Z.get i q)]
     exact mul_le_of_le_one_right (abs_nonneg _) (abs_le.mpr (h j q))
 
-theorem range_cost {W : AMat ℚ n} (h : InPm1 W) (i : Fin n) :
-    ∃ c, (ccSignCost W)[i] = some c ∧ -1 ≤ c ∧ c ≤ 1 := by
-  rw [ccSignCost_get]; exact perNode_range_abs (cost_abs_le (zeroDiag_pm1 h) (zeroDiag_emptyDiag W) i)
+theorem range_costK {W : AMat K n} (h : InPm1 W) (i : Fin n) :
+    ∃ c, costK (zeroDiagK W) i = some c ∧ -1 ≤ c ∧ c ≤ 1 :=
+  perNode_range_abs (cost_abs_le (zeroDiag_pm1 h) (zeroDiag_emptyDiag W) i)
+
+theorem cost_zero {Z : AMat K n} (i : Fin n)
+    (h : ∀ j q, ¬ (Z.get j i ≠ 0 ∧ Z.get i q ≠ 0 ∧ Z.get j q ≠ 0)) : costK Z i = some 0 := by
+  have : (∑ j, ∑ q, Z.get j i * Z.get i q * Z.get j q) = 0 := by
+    refine Finset.sum_eq_zero (fun j _ => Finset.sum_eq_zero (fun q _ => ?_))
+    by_contra hne
+    exact h j q ⟨left_ne_zero_of_mul (left_ne_zero_of_mul hne), right_ne_zero_of_mul (left_ne_zero_of_mul hne),
+      right_ne_zero_of_mul hne⟩
+  rw [costK, this]; simp [perNodeK]
+
+/-! ### with an empty diagonal the sums over all pairs `(j,k)` range over *distinct node triples* only -/
+
+theorem tri_distinct {R : AMat K n} (hD : EmptyDiag R) (i : Fin n) :
+    tri R i = ∑ j, ∑ k, if j ≠ i ∧ k ≠ i ∧ j ≠ k then R.get i j * R.get j k * R.get k i else 0 := by
+  unfold tri
+  refine Finset.sum_congr rfl (fun j _ => Finset.sum_congr rfl (fun k _ => ?_))
+  split_ifs with h
+  · rfl
+  · by_cases h1 : j = i
+    · subst h1; simp [hD j]
+    · by_cases h2 : k = i
+      · subst h2; simp [hD k]
+      · have h3 : j = k := by by_contra h3; exact h ⟨h1, h2, h3⟩
+        subst h3; simp [hD j]
+
+theorem triS_distinct {R : AMat K n} (hD : EmptyDiag R) (i : Fin n) :
+    triS R i = ∑ j, ∑ k, if j ≠ i ∧ k ≠ i ∧ j ≠ k then
+      (R.get i j + R.get j i) * (R.get j k + R.get k j) * (R.get k i + R.get i k) else 0 := by
+  unfold triS
+  refine Finset.sum_congr rfl (fun j _ => Finset.sum_congr rfl (fun k _ => ?_))
+  split_ifs with h
+  · rfl
+  · by_cases h1 : j = i
+    · subst h1; simp [hD j]
+    · by_cases h2 : k = i
+      · subst h2; simp [hD k]
+      · have h3 : j = k := by by_contra h3; exact h ⟨h1, h2, h3⟩
+        subst h3; simp [hD j]
+
+end Generic
+
+/-! ### the ℚ model -/
+
+theorem range_wd {W R : AMat ℚ n} (hD : EmptyDiag W) (h01 : In01 W) (hR : IsCbrt R W) (i : Fin n) :
+    ∃ c, (ccWd W R)[i] = some c ∧ 0 ≤ c ∧ c ≤ 1 := by
+  rw [ccWd_get]; exact range_fagK hD h01 hR i
+
+theorem range_bd {A : AMat ℚ n} (hB : Bin A) (hD : EmptyDiag A) (i : Fin n) :
+    ∃ c, (ccBd A)[i] = some c ∧ 0 ≤ c ∧ c ≤ 1 := by
+  rw [← wd_eq_bd_on01 hB]; exact range_wd hD (in01_of_bin hB) (isCbrt_of_bin hB) i
+
+theorem range_wu {W R : AMat ℚ n} (hS : Symm W) (hD : EmptyDiag W) (h01 : In01 W) (hR : IsCbrt R W) (i : Fin n) :
+    ∃ c, (ccWu W R)[i] = some c ∧ 0 ≤ c ∧ c ≤ 1 := by
+  rw [ccWu_get]; exact range_wuK hS hD h01 hR i
+
+theorem range_bu {G : AMat ℚ n} (hB : Bin G) (hS : Symm G) (hD : EmptyDiag G) (u : Fin n) :
+    ∃ c, (ccBu G)[u] = some c ∧ 0 ≤ c ∧ c ≤ 1 := by
+  rw [← bd_eq_bu_symm hB hS hD]; exact range_bd hB hD u
+
+theorem range_trans_wd {W R : AMat ℚ n} (hD : EmptyDiag W) (h01 : In01 W) (hR : IsCbrt R W) {t : ℚ}
+    (h : transWd W R = some t) : 0 ≤ t ∧ t ≤ 1 := by
+  rw [transWd_eq] at h; exact range_transFagK hD h01 hR h
+
+theorem range_trans_bd {A : AMat ℚ n} (hB : Bin A) (hD : EmptyDiag A) {t : ℚ} (h : transBd A = some t) :
+    0 ≤ t ∧ t ≤ 1 := by
+  rw [← trans_wd_eq_bd_on01 hB] at h; exact range_trans_wd hD (in01_of_bin hB) (isCbrt_of_bin hB) h
+
+theorem range_trans_wu {W R : AMat ℚ n} (hS : Symm W) (hD : EmptyDiag W) (h01 : In01 W) (hR : IsCbrt R W) {t : ℚ}
+    (h : transWu W R = some t) : 0 ≤ t ∧ t ≤ 1 := by
+  rw [transWu_eq] at h; exact range_transWuK hS hD h01 hR h
+
+theorem range_trans_bu {A : AMat ℚ n} (hB : Bin A) (hS : Symm A) (hD : EmptyDiag A) {t : ℚ} (h : transBu A = some t) :
+    0 ≤ t ∧ t ≤ 1 := by
+  rw [← trans_bd_eq_bu_symm hB hS] at h; exact range_trans_bd hB hD h
 
 end Bct.Cluster
